@@ -70,6 +70,8 @@ PropPool == {P("id", "int", ""), P("name", "str", ""), P("ra", "ref", "@a"), P("
             \cup (IF "nested" \in Features THEN {P("no", "nobj", "@b"), P("nc", "nobj", "@c")} ELSE {})
             \* "opt": "op": 1 // {optional: true}      "note": "nt": "v" // a note
             \cup (IF "rules" \in Features THEN {P("op", "opt", ""), P("nt", "note", "")} ELSE {})
+            \* "or": "ab": @a | @b      "mm": 3 // {min: 1, max: 9}      "nu": null      "li": [1, 2]
+            \cup (IF "rules" \in Features THEN {P("ab", "or", ""), P("mm", "minmax", ""), P("nu", "null", ""), P("li", "ints", "")} ELSE {})
             \* "skey": a property whose key is a user type (shortcut key):   @kt: 1
             \cup (IF "skey" \in Features THEN {P("@kt", "skey", "@kt")} ELSE {})
 SmallPropPool == {P("id", "int", ""), P("rb", "ref", "@b"), P("en", "enum", "@e")}
@@ -213,6 +215,7 @@ IdOf(e) == e.proto \o " " \o e.name \o " " \o PathStr(e.path)
 (* Well-formedness (what the language requires of a document)              *)
 
 BodyRefs(b) == (IF b.k \in {"ref", "arr"} THEN {b.n} ELSE {})
+               \cup (IF \E j \in 1..Len(b.props) : b.props[j].vk = "or" THEN {"@a", "@b"} ELSE {})
                \cup {b.props[i].vn : i \in {j \in 1..Len(b.props) : b.props[j].vk \in {"ref", "arr", "nobj", "skey"}}}
                \cup Range(b.allOf)
 BodyEnums(b) == {b.props[i].vn : i \in {j \in 1..Len(b.props) : b.props[j].vk = "enum"}}
@@ -303,16 +306,21 @@ Valid(d) ==
 (* The catalog a valid document denotes                                    *)
 
 \* kids: for a nested object, its own children as <<key, inheritedFrom>> pairs
+\* rules: the rules written for the property, as <<key, value>> pairs in source order
 Child(key, tt, ty, sc, inh) == [key |-> key, tt |-> tt, type |-> ty, scalar |-> sc, inh |-> inh, kids |-> << >>,
-                                optional |-> FALSE, note |-> ""]
+                                optional |-> FALSE, note |-> "", rules |-> << >>]
 PropView(p, inh) ==
   CASE p.vk = "int"  -> Child(p.key, "number", "integer", "1", inh)
     [] p.vk = "str"  -> Child(p.key, "string", "string", "v", inh)
     [] p.vk = "ref"  -> Child(p.key, "reference", p.vn, p.vn, inh)
     [] p.vk = "arr"  -> Child(p.key, "array", "array", p.vn, inh)      \* scalar = item type
-    [] p.vk = "enum" -> Child(p.key, "string", "enum", "x", inh)
+    [] p.vk = "enum" -> [Child(p.key, "string", "enum", "x", inh) EXCEPT !.rules = << <<"enum", p.vn>> >>]
+    [] p.vk = "or"   -> Child(p.key, "reference", "mixed", "@a | @b", inh)
+    [] p.vk = "minmax" -> [Child(p.key, "number", "integer", "3", inh) EXCEPT !.rules = << <<"min", "1">>, <<"max", "9">> >>]
+    [] p.vk = "null" -> Child(p.key, "null", "null", "null", inh)
+    [] p.vk = "ints" -> Child(p.key, "array", "array", "integer", inh)
     [] p.vk = "skey" -> Child(p.key, "number", "integer", "1", inh)
-    [] p.vk = "opt"  -> [Child(p.key, "number", "integer", "1", inh) EXCEPT !.optional = TRUE]
+    [] p.vk = "opt"  -> [Child(p.key, "number", "integer", "1", inh) EXCEPT !.optional = TRUE, !.rules = << <<"optional", "true">> >>]
     [] p.vk = "note" -> [Child(p.key, "string", "string", "v", inh) EXCEPT !.note = "a note"]
 
 \* children of an object body: for every base, in the order named, all its children (own and
@@ -327,13 +335,17 @@ ChildrenOf(tt, b) ==
       Own(p) == IF p.vk # "nobj" THEN PropView(p, "")
                 ELSE LET base == ChildrenOf(tt, tt[p.vn])
                      IN [Child(p.key, "object", "object", "", "") EXCEPT
-                           !.kids = [j \in 1..Len(base) |-> <<base[j].key, p.vn>>] \o << <<"nk", "">> >>]
+                           !.kids = [j \in 1..Len(base) |-> <<base[j].key, p.vn>>] \o << <<"nk", "">> >>,
+                           !.rules = << <<"allOf", p.vn>> >>]
   IN FromBases(1) \o [i \in 1..Len(b.props) |-> Own(b.props[i])]
 
 SV(notation, tt, ty, sc, children) ==
-  [notation |-> notation, tt |-> tt, type |-> ty, scalar |-> sc, children |-> children]
+  [notation |-> notation, tt |-> tt, type |-> ty, scalar |-> sc, children |-> children, rules |-> << >>]
+RECURSIVE JoinComma(_)
+JoinComma(q) == IF q = << >> THEN "" ELSE IF Len(q) = 1 THEN q[1] ELSE q[1] \o "," \o JoinComma(Tail(q))
 SchemaView(tt, b) ==
-  CASE b.k = "obj"   -> SV("jsight", "object", "object", "", ChildrenOf(tt, b))
+  CASE b.k = "obj"   -> [SV("jsight", "object", "object", "", ChildrenOf(tt, b)) EXCEPT
+                            !.rules = IF b.allOf = << >> THEN << >> ELSE << <<"allOf", JoinComma(b.allOf)>> >>]
     [] b.k = "ref"   -> SV("jsight", "reference", b.n, b.n, << >>)
     [] b.k = "arr"   -> SV("jsight", "array", "array", b.n, << >>)
     [] b.k = "int"   -> SV("jsight", "number", "integer", "1", << >>)
